@@ -5,6 +5,7 @@ Times are SECONDS since 1970-01-01T00:00 (naive UTC; the resolution of S3's Last
 The case is, minus keys starting with '_', the body of the driver request "c16.multi".
 """
 import datetime
+import random
 import fnmatch
 
 from harness.engine import Prop
@@ -16,8 +17,15 @@ M = 60          # one minute
 PREFIXES = ['', 'p', 'a/b', 'xmetadata']
 
 
+SUBSEC = [False]
+
+
 def instant(t):
-    return None if t is None else EPOCH + datetime.timedelta(seconds=t)
+    """second t of the model as a datetime.  With SUBSEC on, every second carries a sub-second part of its own (a function of t):
+    an order-preserving embedding that keeps the calendar day, so every comparison and every day count of the model stands"""
+    if t is None:
+        return None
+    return EPOCH + datetime.timedelta(seconds=t, microseconds=(t * 7919 + 13) % 1000000 if SUBSEC[0] else 0)
 
 
 def minutes(dt):
@@ -195,8 +203,8 @@ class C16(Prop):
             'recording at every grid instant, every window (start, end) on the grid with explicit end, and for every `now` on '
             'the grid every start with the end defaulting to now; instants at 23:59/00:00/00:01 around midnights with windows '
             'of <1 day crossing midnight, 24 h, 24 h +- 1 min, 48 h; one recording a day over 45 days with windows of 15-45 day folders; random buckets (whole minutes and single seconds) of 5-25 recordings in 6 days '
-            'with 8-20 windows (limits, filters, random order); one case = one bucket + its windows; per case additionally (not '
-            'modelled): its first window with the 1st / 2nd / 3rd / 5th read request (listing step or GET) answered by an error - the '
+            'with 8-20 windows (limits, filters, random order); in 40% of the cases every instant (recording times, window bounds, now) carries a sub-second part - an order- and day-preserving embedding of the model\'s seconds; one case = one bucket + its windows; per case additionally (not '
+            'modelled): its first window with the 1st / 2nd / 3rd / 5th read request (listing step or GET) answered by the error boto3 raises for a 503 SlowDown answer (botocore ClientError) - the '
             'lookup raises or is exact - and its first two windows consumed interleaved through one cassette; a case is non-trivial '
             'when some window has a non-empty expected set; distinct = distinct canonical case')
     TRUSTED = ['correspondence harness harness/props/c16.py + Lean driver (Drive/S3.lean)',
@@ -204,7 +212,7 @@ class C16(Prop):
                'from the controlled clock at put time)',
                "strftime('%Y%m%d') is a parameter of the model; its graph on the days of the case is computed by Python and "
                'sent to the driver as a table',
-               'datetime/timedelta/date arithmetic modelled as seconds and days (t / 86400) since 1970-01-01',
+               'datetime/timedelta/date arithmetic modelled as seconds and days (t / 86400) since 1970-01-01; sub-second parts are attached by the harness as a function of the second (equal seconds = equal instants)',
                'random.choice / shuffle replaced on both sides by the same deterministic draws (given list / rotation)',
                'metadata filter semantics: C14']
     ASSUMPTIONS = ['process clock in UTC: datetime.today() and datetime.utcnow() return the same naive instant',
@@ -393,12 +401,17 @@ class C16(Prop):
         cases += self.boundary_cases(rng)
         for _ in range(60 if quick else 1500):
             cases.append(self.rand_case(rng))
+        sub = random.Random(rng.random())
+        for c in cases:
+            if sub.random() < 0.4:
+                c['subsec'] = True       # instants carry sub-second parts (what utcnow() gives a service)
         return cases
 
     # ------------------------------------------------------------------------------------------------------
     # the real code
     # ------------------------------------------------------------------------------------------------------
     def run_impl(self, case):
+        SUBSEC[0] = bool(case.get('subsec'))
         fake_s3, mod = bind()
         fake_s3.reset()
         st = fake_s3.store('b')
@@ -584,6 +597,8 @@ class C16(Prop):
 
     def features(self, case, impl):
         out = ['prefix:%s' % (case['p'] or "''"), 'kind:%s' % case.get('_kind', 'corpus' if '_corpus' in case else 'other')]
+        if case.get('subsec'):
+            out.append('instants:with-sub-second-parts')
         for w in case['windows']:
             out.append('end:explicit' if w['e'] is not None else 'end:default')
             if w['s'] is None:
